@@ -118,6 +118,18 @@ let get = function Ok a -> a | Err e -> failwith ("decode: " ^ err_name e)
 
 let num_arg = function JNum x -> x | JBool b -> if b then ops.n1 else ops.n0 | _ -> failwith "num arg"
 
+let jstr s = JStr s
+let jlist f l = JList (List.map f l)
+let graph_arg g = get (graph_of_jv ops num_nat g)
+let jgraph g = JList [asdict ops g; jv_of_index ops g.g_index nat_num]
+let jndict (d : (string * string list) list) =
+  JList (List.map (fun (k, v) -> JList [JStr k; jlist jstr v]) d)
+let jmatrix (m : num list list) = jlist (jlist jnum) m
+let str_arg = function JStr s -> s | _ -> failwith "str arg"
+let namemap_arg = function
+  | JList l -> List.map (function JList [JStr a; JStr b] -> (a, b) | _ -> failwith "namemap") l
+  | _ -> failwith "namemap"
+
 let dispatch (op : string) (args : jv list) : jv =
   match op, args with
   | "size_at", [d; JList ts] ->
@@ -125,7 +137,30 @@ let dispatch (op : string) (args : jv list) : jv =
       JList (List.map (fun t -> of_res jnum (size_at ops d (num_arg t))) ts)
   | "isclose", [a; b; r; t] -> jbool (isclose ops (num_arg a) (num_arg b) (num_arg r) (num_arg t))
   | "pysum", [JList l] -> jnum (pysum ops (List.map num_arg l))
-  | "roundtrip_graph", [g] -> of_res (fun g -> asdict ops g) (graph_of_jv ops num_nat g)
+  | "roundtrip_graph", [g] -> of_res jgraph (graph_of_jv ops num_nat g)
+  | "migmat", [g] ->
+      of_res (fun (mms, ets) -> JList [jlist jmatrix mms; jlist jnum ets])
+        (migration_matrices ops (graph_arg g))
+  | "check_rates", [g] -> of_res (fun () -> JNull) (check_migration_rates ops (graph_arg g))
+  | "successors", [g] -> jndict (successors ops (graph_arg g))
+  | "predecessors", [g] -> jndict (predecessors ops (graph_arg g))
+  | "events", [g] ->
+      of_res (fun ev ->
+        JDict [
+          ("splits", jlist (fun ((p, cs), t) -> JList [JStr p; jlist jstr cs; JNum t]) ev.ev_splits);
+          ("branches", jlist (fun ((p, c), t) -> JList [JStr p; JStr c; JNum t]) ev.ev_branches);
+          ("mergers", jlist (fun (((ps, pr), c), t) -> JList [jlist jstr ps; jlist jnum pr; JStr c; JNum t]) ev.ev_mergers);
+          ("admixtures", jlist (fun (((ps, pr), c), t) -> JList [jlist jstr ps; jlist jnum pr; JStr c; JNum t]) ev.ev_admixtures)])
+        (discrete_events ops (graph_arg g))
+  | "in_generations", [g] -> of_res jgraph (in_generations ops (graph_arg g))
+  | "rename", [g; names; JList probes] ->
+      let h = rename_demes ops (namemap_arg names) (graph_arg g) in
+      JList [jgraph h;
+             jlist (fun p -> let p = str_arg p in
+                      JList [JStr p; jbool (contains ops h p);
+                             (match lookup ops h p with Ok d -> JStr d.d_name | Err _ -> JNull)]) probes]
+  | "close", [a; b; r; t] ->
+      jbool (close_graph ops (num_arg r) (num_arg t) (graph_arg a) (graph_arg b))
   | _ -> failwith ("unknown op " ^ op)
 
 let () =
